@@ -20,6 +20,7 @@ import LinVerif.Lemmas.C20Reuse
 import LinVerif.Lemmas.C20PrevMachine
 import LinVerif.Lemmas.C20Walk
 import LinVerif.Lemmas.C20WireErr
+import LinVerif.Lemmas.C20BucketWire
 import LinVerif.Lemmas.C20Words
 import LinVerif.Model.Louds
 import LinVerif.Model.TrieBucket
@@ -522,6 +523,55 @@ theorem unmarshal_truncated_never_ok_encode (t : Node) (hb : WireBounded (toWire
     intro n hn; unfold U32 rankSparseBlockSize at *; omega
   exact unmarshalR_truncated _ (wireOK_encode t hb)
     ⟨h4, ⟨hfit _ hb.hasChildBits⟩, ⟨hfit _ hb.pfxBits⟩, ⟨hfit _ hb.sfxBits⟩⟩ m hm
+
+/-! #### the bucket framing around the tries (round 12; `Model/BucketWire.lean`) -/
+
+/-- **`TrieBucket.Unmarshal` undoes `TrieBucketBuilder.Write`'s framing**: the value written by one builder
+call — per block `uint32(MarshalSize())` little endian, then the image — is read back by the loop of
+`TrieBucket.Unmarshal` (size word, `end := 4 + size` in uint32, the unchecked `block[4:end]` / `block[:end]` /
+`block[end:]` slices, `UnmarshalBinary` on exactly the image) as exactly the written tries, in block order, APPENDED
+to whatever the object already holds; every entry's `buf` is its whole frame. For any number of tries of any size
+whose frame length fits `uint32` (`BucketFrameOK`). -/
+theorem bucket_unmarshal_frames (ws : List Wire) (h : ∀ w ∈ ws, BucketFrameOK w) (acc : List BucketWire.Entry) :
+    BucketWire.bucketUnmarshal acc (BucketWire.bucketBytes ws) = .ok (acc ++ ws.map entryOf) :=
+  bucketUnmarshal_frames ws h acc
+
+/-- a bucket object filled by one `Unmarshal` per stored value (index/v1 `GetBucket`: every flushed value of the
+key; `indexKVMerger.Merge`: every input block) holds the tries of all values, in order -/
+theorem bucket_load_all_values (wss : List (List Wire)) (h : ∀ ws ∈ wss, ∀ w ∈ ws, BucketFrameOK w) :
+    BucketWire.loadAll [] (wss.map BucketWire.bucketBytes) = .ok (wss.flatten.map entryOf) := by
+  have := loadAll_frames wss h []
+  simpa using this
+
+/-- the tries a merge keeps are copied as their `buf` (`w.Write(tree.buf)`): those bytes are again a
+well-framed value holding exactly the kept tries -/
+theorem bucket_copied_frames_reload (ws : List Wire) (h : ∀ w ∈ ws, BucketFrameOK w) :
+    BucketWire.bucketUnmarshal [] (BucketWire.copiedBytes (ws.map entryOf)) = .ok (ws.map entryOf) := by
+  rw [copiedBytes_entries]
+  have := bucketUnmarshal_frames ws h []
+  simpa using this
+
+/-- the encoding of every tree is frameable under the size bounds only -/
+theorem bucketFrameOK_encode (t : Node) (hb : WireBounded (toWire (encode t)))
+    (h4 : U32 (4 + (encode t).labels.length)) (hs : U32 (4 + marshalSize (toWire (encode t)))) :
+    BucketFrameOK (toWire (encode t)) := by
+  have hfit : ∀ n, U32 n → U32 ((n / rankSparseBlockSize + 1) * 4) := by
+    intro n hn; unfold U32 rankSparseBlockSize at *; omega
+  exact ⟨wireOK_encode t hb, ⟨h4, ⟨hfit _ hb.hasChildBits⟩, ⟨hfit _ hb.pfxBits⟩, ⟨hfit _ hb.sfxBits⟩⟩, hs⟩
+
+-- non-vacuity: two flushed values, the first with two tries, loaded into one object
+set_option maxRecDepth 16000 in
+example : ((build [([97], 1)]).bind fun t1 => (build [([98], 2), ([99, 100], 3)]).map fun t2 =>
+    let w1 := toWire (encode t1); let w2 := toWire (encode t2)
+    BucketWire.loadAll [] [BucketWire.bucketBytes [w1, w2], BucketWire.bucketBytes [w2]] ==
+      .ok [entryOf w1, entryOf w2, entryOf w2]) = some true := by decide
+/-- damaged framing: a size word pointing beyond the value panics (`block[4:end]`), fewer than 4 bytes panic,
+`end` wrapping below 4 panics; a value cut at a frame boundary loads as a shorter bucket (no count, no checksum
+at this level — kv tables carry the checksum) -/
+example : BucketWire.bucketUnmarshal [] [200, 0, 0, 0, 1, 2, 3] = .panic := by decide
+example : BucketWire.bucketUnmarshal [] [1, 0] = .panic := by decide
+example : BucketWire.bucketUnmarshal [] [254, 255, 255, 255, 1, 2, 3] = .panic := by decide
+example : BucketWire.bucketUnmarshal [] [4, 0, 0, 0, 1, 0, 0, 0] = .err "eof" := by decide
 
 /-- `UnmarshalBinary` looks only at the bytes it consumes: bytes after an accepted image change nothing -/
 theorem unmarshal_ignores_trailing_bytes (b s : List Nat) (w : Wire) (h : unmarshalR b = .ok w) :
